@@ -97,8 +97,8 @@ theorem c12_455_inert (cfg : Cfg) (s : Sess) (r : Req) (e : Env) (x : Resp)
     on plain RTSP and on ws-rtsp, is accepted by the reference automaton of the statement
     (Spec/RtspAutomaton.lean): exactly one response per request with the CSeq echoed, the connection
     usable after every request but TEARDOWN, a method that is not legal in the current phase refused
-    with 455, a 455 inert, DESCRIBE/ANNOUNCE/SETUP (and PLAY) never refused with 455 where they are
-    legal, success only along DESCRIBE → SETUP → PLAY and ANNOUNCE → SETUP → RECORD (a SETUP whose
+    with 455, a 455 inert, DESCRIBE/ANNOUNCE/SETUP (and PLAY; PAUSE on WSP) never refused with 455 where
+    they are legal, success only along DESCRIBE → SETUP → PLAY and ANNOUNCE → SETUP → RECORD (a SETUP whose
     `mode` parameter contradicts the direction is never accepted), a consumer attached exactly
     while playing, a stream published exactly while recording, refusals inert, TEARDOWN and
     disconnect release everything.  The only hypothesis: the SETUP path the URL library delivers
